@@ -19,9 +19,16 @@ FIXED = [
  ("C05", "fix: negative cell counts", "cells_per_row_limit/offset or cells_per_column_limit < 0 panics with slice bounds out of range (also C20)"),
  ("C05", "fix: cells_per_row_offset_filter never", "cells_per_row_offset 1 on a row with two one-cell columns returns nothing"),
  ("C05", "fix: condition filter took", "condition{predicate: cells_per_row_offset 2 on a 2-cell row} evaluates the true branch"),
+ ("C16", "fix: a GC pass reverted", "leveldb engines: a write acknowledged while a GC pass had released the table lock (after every 100th row) is overwritten by the pass's stale snapshot row"),
+ ("C08", "fix: a kill during table clear/create", "kill inside DropRowRange(all)/CreateTable after the new MANIFEST file is created but before CURRENT is set (or in the middle of the directory removal): the next start panics with 'file missing'"),
  ("C17", "fix: leveldb row iteration ignored", "leveldb engines: a filter error raised on a non-last row is overwritten by the next row; read ends OK with the row missing (btree returns InvalidArgument; seen through C05)"),
 ]
-OPEN = []
+OPEN = [
+ {"status": "open", "property": "C08", "id": "droprowrange-prefix-not-atomic", "witness": "inflight-droprowrange-prefix-partial",
+  "what": "DropRowRange(prefix) deletes row by row: a kill in the middle leaves it half applied after restart (some of the matching rows gone, some still there)"},
+ {"status": "open", "property": "C08", "id": "family-drop-purge-not-atomic", "witness": "inflight-family-drop-partial",
+  "what": "ModifyColumnFamilies(drop) purges the family row by row and persists the new schema last: a kill in the middle leaves rows purged while the family is still in the schema"},
+]
 entries = []
 for prop, prefix, what in FIXED:
     entries.append({"status": "fixed", "property": prop, "commit": sha(prefix), "what": what})
